@@ -900,8 +900,8 @@ func (a *idxAnalyzer) proveLE(z *zone, l *linExpr, k int) bool {
 		}
 	case len(pos) == 2 && len(neg) == 0, len(neg) == 2 && len(pos) <= 1:
 		n := normLin(l)
-		if len(n.t) < len(l.t) {
-			return a.proveLE(z, n, k)
+		if len(n.t) < len(l.t) && a.proveLE(z, n, k) {
+			return true
 		}
 		// p - q - r <= k follows from p - q <= k when r is known non-negative
 		if len(neg) == 2 {
